@@ -81,6 +81,9 @@ func stripQuoted(d string) string {
 }
 
 func dumpIncomplete(d string) string {
+	if strings.Contains(d, `(id "")`) {
+		return "an identifier without a name"
+	}
 	s := stripQuoted(d)
 	// an absent exec block (empty program or imports only) is legitimate
 	if strings.HasSuffix(s, ") nil)") && strings.HasPrefix(s, "(prog (imports") {
@@ -323,6 +326,23 @@ func checkC05(c *Ctx) {
 			rs = rs[:rng.Intn(len(rs)+1)]
 		}
 		add(rs)
+	}
+
+	// 2b. block positions filled with things that are no statement / pair / name
+	{
+		headers := []string{"令：", "如果 真：", "每当 真：", "以A遍历B：", "如何F？", "定义T：", "A = 1\n否则：", "如果 真：\n\tA = 1\n否则：", "如果 真：\n\tA = 1\n再如 真：", "A = 1\n拦截异常："}
+		bodies := []string{"；", "；；", "注：x", "/* c */", "；\n\t；", "", "；注：x", "\n\t；"}
+		for _, h := range headers {
+			for _, b := range bodies {
+				for _, tail := range []string{"", "X\n", "令B = 1\n"} {
+					add([]rune(h + "\n\t" + b + "\n" + tail))
+					add([]rune(h + "\n    " + b + "\n" + tail))
+				}
+			}
+		}
+		for _, t := range []string{"令`` = 1", "`` = 1", "A之`` = 1", "如何``？\n\t输出 1\n", "定义``：\n\t其A = 1\n", "输入``\n", "以``遍历A：\n\tB\n", "（``）", "（``：1）", "以A（``）", "其`` = 1", "A = B之``", "导入“A”之``"} {
+			add([]rune(t))
+		}
 	}
 
 	// 3. bounded exhaustive short inputs
